@@ -150,6 +150,27 @@ def key_blob(enc):
 # ---------------------------------------------------------------------------
 # crash handling: memory clause
 # ---------------------------------------------------------------------------
+_INTRA_OBJECT = "index 18446744073709551615 out of bounds for type 'bn_digit_t"
+
+
+def rejudge_intra_object(part, exe, vm, cases, res, entry_of):
+    """DESIGN 3.1: UBSan kinds that do not leave the object are observations.  clang's -fsanitize=bounds
+    flags bn_sub() evaluating bn->num[digits - 1] with digits == 0: index -1 of the member array, i.e. the
+    `digits` field of the same bn_t - never a caller's byte string.  Such a case is recorded as an
+    observation and judged by its outputs on the matching plain build; every other report stays a
+    violation of the memory clause."""
+    out = list(res)
+    for i, o in enumerate(res):
+        if isinstance(o, common.Crash) and o.kind == "ubsan" and _INTRA_OBJECT in (o.report or ""):
+            key = common.crash_key(o, entry_of(i))
+            part["observations"][key] = part["observations"].get(key, 0) + 1
+            try:
+                out[i] = common.run_cases(base.plain_exe(vm), [cases[i]])[0]
+            except common.BuildError:
+                pass
+    return out
+
+
 def judge_crash(part, o, entry, vname, vm, case, note):
     key = common.crash_key(o, entry)
     rep = o.report or ""
@@ -433,7 +454,7 @@ def work(job):
     def entry(kind):
         return "%s_%s" % (ENT[kind], oname)
 
-    res = common.run_cases(exe, cases)
+    res = rejudge_intra_object(part, exe, vm, cases, common.run_cases(exe, cases), lambda i: entry(info[i]["kind"]))
     imp2 = []           # second phase: import what the library exported
     dh_seen = {}
     for inf, o, cs in zip(info, res, cases):
@@ -600,7 +621,7 @@ def work(job):
             cls(kind, ok)
     # ------------------------------------------------------------------ phase 2: import(export(P))
     cases2 = [case_import(ci, le, qx, qy, None, pat=pat()) for (P, form, qx, qy) in imp2]
-    res2 = common.run_cases(exe, cases2)
+    res2 = rejudge_intra_object(part, exe, vm, cases2, common.run_cases(exe, cases2), lambda i: entry("import2"))
     for (P, form, qx, qy), o, cs in zip(imp2, res2, cases2):
         ent = entry("import2")
         part["evaluations"] += 1
@@ -655,7 +676,7 @@ def fault_plans(part, c, ci, oname, order, le, vname, vm, exe, rng, tier, viol, 
         for p in base._positions(N, cnt, rng):
             cases.append(mk(p))
             cinfo.append((name, ent, p, N))
-    res = common.run_cases(exe, cases)
+    res = rejudge_intra_object(part, exe, vm, cases, common.run_cases(exe, cases), lambda i: cinfo[i][1])
     for (name, ent, p, N), o, cs in zip(cinfo, res, cases):
         part["evaluations"] += 1
         if isinstance(o, common.Crash):
